@@ -53,6 +53,30 @@ def _trim(o, n=2000):
     return {"_truncated": s[:n]}
 
 
+WATCHDOG = __import__("re").compile(r"hang|no-termination|[Tt]imeout|harness-error|does not converge|step")
+
+
+def _confirm(prop, hit):
+    """A hit that comes from one of the harness' own limits (per-case alarm, step cap, time limit) is not a property
+    violation by itself: run the case again, alone, with five times the time and twenty times the step limits; keep the hit only if the
+    monitor reports the same key again."""
+    if not hit.get("stream") or "case" not in hit or not WATCHDOG.search(hit.get("key", "") + " " + hit.get("what", "")[:80]):
+        return hit
+    sm = C.load_stream(hit["stream"])
+    env = dict(getattr(sm, "ENV", None) or {})
+    env["VERIF_CASE_TIMEOUT"] = str(5 * int(env.get("VERIF_CASE_TIMEOUT", "20")))
+    env["VERIF_LIMIT_MULT"] = "20"
+    try:
+        obs = C.run_impl(hit["stream"], [hit["case"]], env_extra=env, jobs=1)[0]
+        again = [h for h in sm.monitor(hit["case"], obs) if h.get("prop") == prop and h.get("key") == hit["key"]]
+    except Exception:
+        return hit
+    if not again:
+        print(f"[{prop}] note: {hit['key']} did not recur with generous limits (harness limit, not a violation)")
+        return None
+    return dict(hit, obs=_trim(obs), what=again[0].get("what", hit["what"]) + " [confirmed with 5x time and 20x step limits]")
+
+
 def _shrink(prop, stream_name, hit, max_rounds=60):
     """Greedy shrinking of a monitor hit: keep a candidate iff the monitor still reports the same key."""
     sm = C.load_stream(stream_name)
@@ -169,6 +193,9 @@ def run_property(prop, tier="quick", replay=None):
                     known.append(f"KNOWN-FINDING: property={prop} {kf.get('what', h['what'])} [e.g. {h['key']}]")
                 continue
             if ("V", h["key"]) in seen:
+                continue
+            h = _confirm(prop, h)
+            if h is None:
                 continue
             seen.add(("V", h["key"]))
             if shrink and h.get("stream") and "case" in h:
